@@ -30,6 +30,9 @@ type vfDetail struct {
 	Kind  string `json:"kind"` // header, payload, reqinfo
 	Text  string `json:"text"`
 	Debug bool   `json:"debug"` // include the optional "debug" member
+	// DebugAny: the debug member is the JSON form of the Any (with "@type", as connect-go renders it): 1 with the
+	// default type-URL prefix, 2 with a prefix that has slashes of its own (only the last segment is the type name)
+	DebugAny int `json:"debugAny,omitempty"`
 }
 
 type vfMeta struct {
@@ -170,6 +173,12 @@ func vfRenderConnectError(e vfErrSpec, mal string) string {
 						o.TimeoutMs = proto.Int64(12345)
 					}
 					dbg, _ = protojson.Marshal(other)
+				}
+				if d.DebugAny > 0 && !(first && mal == "detail-debug-disagrees") {
+					prefix := []string{"", "type.googleapis.com/", "example.com/types/v1/"}[d.DebugAny%3]
+					if asAny, err := protojson.Marshal(&anypb.Any{TypeUrl: prefix + typ, Value: data}); err == nil && prefix != "" {
+						dbg = asAny
+					}
 				}
 				dm = append(dm, `"debug":`+string(dbg))
 			}
@@ -614,7 +623,7 @@ func vfGenErrSpec(t *rapid.T, allowOK bool) vfErrSpec {
 	}
 	for i, n := 0, rapid.IntRange(0, 3).Draw(t, "ndetails"); i < n; i++ {
 		e.Details = append(e.Details, vfDetail{Kind: rapid.SampledFrom([]string{"header", "payload", "reqinfo"}).Draw(t, "dkind"),
-			Text: rapid.SampledFrom([]string{"", "d", "détail", "with \"quotes\""}).Draw(t, "dtext"), Debug: rapid.Bool().Draw(t, "debug")})
+			Text: rapid.SampledFrom([]string{"", "d", "détail", "with \"quotes\""}).Draw(t, "dtext"), Debug: rapid.Bool().Draw(t, "debug"), DebugAny: rapid.IntRange(0, 2).Draw(t, "debugAny")})
 	}
 	names := rapid.Permutation(vfMetaNames).Draw(t, "metanames")
 	for i, n := 0, rapid.IntRange(0, 3).Draw(t, "nmeta"); i < n; i++ {
